@@ -7,6 +7,7 @@ import Driver.TypeStr
 import Driver.History
 import Driver.Diff
 import Driver.Bind
+import Driver.Distances
 open Driver
 
 def main (args : List String) : IO UInt32 := do
@@ -39,6 +40,9 @@ def main (args : List String) : IO UInt32 := do
     return 0
   | ["bind"] =>
     lineLoop stdin stdout BindEng.init BindEng.step
+    return 0
+  | ["distances"] =>
+    lineLoop stdin stdout DistancesEng.init DistancesEng.step
     return 0
   | _ =>
     IO.eprintln "usage: hwmodel <engine>"
